@@ -494,3 +494,204 @@ def _tainted(body, op, seen, depth):
                 continue
             continue
     return False
+
+
+# ---------------------------------------------------------------------------
+# dominating conditions (for argument-precondition guards: clamp, random_range, rest[n])
+# ---------------------------------------------------------------------------
+
+def _okey(body, op):
+    """identity of a scalar operand: named local / constant / None"""
+    k = op_const(op)
+    if k is not None:
+        return ("const", k.get("int", k.get("float", k.get("disp"))))
+    l = R.origin_local(body, op)
+    if l is not None:
+        return ("local", l)
+    pl = op_place(op)
+    if pl is not None:
+        src = _source_place(body, pl)
+        return ("place", src)
+    return None
+
+
+def dom_conditions(body, bb):
+    """[(kind, payload, truth)] for every branch that dominates bb:
+       ('call', (callee_last, [arg keys]))  |  ('cmp', (op, akey, bkey))"""
+    out = []
+    for (a, x) in dominating_edges(body, bb):
+        t = body.term(a)
+        if t["k"] != "switch":
+            continue
+        tt, ft = R.switch_targets_bool(t)
+        if x not in (tt, ft) or tt == ft:
+            continue
+        truth = x == tt
+        o = R.origin(body, t["op"], carriers={})
+        if o[0] == "call" and "fn" in o[2]:
+            c = Callee(o[2]["fn"])
+            out.append(("call", (c.path.split("::")[-1], [_okey(body, arg) for arg in o[2]["args"]]), truth))
+        elif o[0] == "rv" and o[1].get("k") == "binop" and o[1]["op"] in R.CMP_OPS:
+            rv = o[1]
+            out.append(("cmp", (rv["op"], _okey(body, rv["a"]), _okey(body, rv["b"])), truth))
+        elif o[0] == "rv" and o[1].get("k") == "unop" and o[1].get("op") == "Not":
+            o2 = R.origin(body, o[1]["a"], carriers={})
+            if o2[0] == "call" and "fn" in o2[2]:
+                c = Callee(o2[2]["fn"])
+                out.append(("call", (c.path.split("::")[-1], [_okey(body, arg) for arg in o2[2]["args"]]), not truth))
+            elif o2[0] == "rv" and o2[1].get("k") == "binop" and o2[1]["op"] in R.CMP_OPS:
+                rv = o2[1]
+                out.append(("cmp", (rv["op"], _okey(body, rv["a"]), _okey(body, rv["b"])), not truth))
+    return out
+
+
+NEG = {"Gt": "Le", "Ge": "Lt", "Lt": "Ge", "Le": "Gt", "Eq": "Ne", "Ne": "Eq"}
+
+
+def knows_le(conds, a, b, strict=False):
+    """do the dominating conditions establish a <= b (a < b when strict)?  (for floats: and not NaN-unordered
+    only when the established relation is a positive comparison)"""
+    for kind, payload, truth in conds:
+        if kind != "cmp":
+            continue
+        op, x, y = payload
+        if not truth:
+            op = NEG[op]
+            positive = False
+        else:
+            positive = True
+        rel = None
+        if (x, y) == (a, b):
+            rel = op
+        elif (x, y) == (b, a):
+            rel = R.MIRROR[op]
+        if rel is None:
+            continue
+        if strict and rel == "Lt":
+            return True, positive
+        if not strict and rel in ("Le", "Lt", "Eq"):
+            return True, positive
+    return False, False
+
+
+def knows_not_call(conds, name, key):
+    for kind, payload, truth in conds:
+        if kind == "call" and payload[0] == name and payload[1] and payload[1][0] == key and not truth:
+            return True
+    return False
+
+
+def clamp_guard(body, bb, t):
+    """f32::clamp(x, min, max) panics if min > max or either bound is NaN"""
+    if len(t["args"]) != 3:
+        return None
+    lo, hi = _okey(body, t["args"][1]), _okey(body, t["args"][2])
+    if lo is None or hi is None:
+        return None
+    conds = dom_conditions(body, bb)
+    le, positive = knows_le(conds, lo, hi)
+    nan_lo = knows_not_call(conds, "is_nan", lo) or lo[0] == "const"
+    nan_hi = knows_not_call(conds, "is_nan", hi) or hi[0] == "const"
+    if le and (positive or (nan_lo and nan_hi)) and nan_lo and nan_hi:
+        return "dominating tests establish min <= max and that neither bound is NaN"
+    if le and positive:
+        return "a dominating positive comparison min <= max holds (which also excludes NaN bounds)"
+    return None
+
+
+def range_guard(body, bb, t):
+    """random_range(lo..=hi) panics on an empty range"""
+    o = R.origin(body, t["args"][1], carriers={}) if len(t["args"]) > 1 else None
+    if not o or o[0] != "call" or "fn" not in o[2]:
+        return None
+    c = Callee(o[2]["fn"])
+    if not c.path.endswith("RangeInclusive::<Idx>::new") and "RangeInclusive" not in c.path:
+        return None
+    lo, hi = _okey(body, o[2]["args"][0]), _okey(body, o[2]["args"][1])
+    conds = dom_conditions(body, bb)
+    le, positive = knows_le(conds, lo, hi)
+    tys = {body.local_ty(k[1]) for k in (lo, hi) if k and k[0] == "local"}
+    if le and (positive or tys <= {"i32", "i64", "u32", "u64", "usize", "isize"}):
+        return "dominating test establishes min <= max for the (integer) range bounds"
+    return None
+
+
+def bounds_guard(body, bb, t):
+    """slice[idx] (BoundsCheck assert): dominated by idx < len of the same slice"""
+    idx = _okey(body, t.get("index"))
+    ln = t.get("len")
+    if idx is None or ln is None:
+        return None
+    lkey, kind = _len_subject(body, ln)
+    conds = dom_conditions(body, bb)
+    # find a dominating `idx < X.len()` where X is the indexed slice
+    for (a, x) in dominating_edges(body, bb):
+        tt = body.term(a)
+        if tt["k"] != "switch":
+            continue
+        t_true, t_false = R.switch_targets_bool(tt)
+        o = R.origin(body, tt["op"], carriers={})
+        if o[0] == "rv" and o[1].get("k") == "binop":
+            rv = o[1]
+            op = rv["op"]
+            if x == t_false:
+                op = NEG.get(op)
+            for (p, q, oo) in ((rv["a"], rv["b"], op), (rv["b"], rv["a"], R.MIRROR.get(op))):
+                if oo == "Lt" and _okey(body, p) == idx:
+                    k2, kind2 = _len_subject(body, q)
+                    if k2 is not None and k2 == lkey:
+                        return "dominating test `index < len` of the same slice"
+    return None
+
+
+# ---------------------------------------------------------------------------
+# D3 / D4: offsets derived from a search on the same collection
+# ---------------------------------------------------------------------------
+
+def _search_origin(body, op, names):
+    """if the operand is the hit payload of recv.<name>(..) return (value_key(recv), call bb)"""
+    o = R.origin(body, op, carriers={"branch": 0, "unwrap": 0, "expect": 0})
+    if o[0] == "call" and "fn" in o[2]:
+        c = Callee(o[2]["fn"])
+        if c.path.split("::")[-1] in names and o[2]["args"]:
+            recv = o[2]["args"][0]
+            # position() is called on an iterator: follow to the collection
+            k = value_key(body, recv)
+            if k is not None and k[0] == "call":
+                it = body.term(k[1])
+                if "fn" in it and Callee(it["fn"]).path.split("::")[-1] in ("iter", "iter_mut", "chars", "char_indices") and it["args"]:
+                    k = value_key(body, it["args"][0])
+            return k, o[1]
+    return None, None
+
+
+def search_offset_guard(body, bb, t, kind):
+    """split_at(s, i) / Vec::remove(v, i): i is the hit of find/rfind/position on the same s / v"""
+    recv, idx = t["args"][0], t["args"][1]
+    names = ("find", "rfind") if kind == "split_at" else ("position", "rposition")
+    k, cb = _search_origin(body, idx, names)
+    if k is None:
+        return None
+    rk = value_key(body, recv)
+    if rk is None or rk != k:
+        return None
+    if mutated_between(body, rk, cb, bb):
+        return None
+    return f"offset is the {names[0]}() hit on the same, unmodified {'string' if kind == 'split_at' else 'vector'}"
+
+
+def str_index_guard(body, bb, t):
+    """s[..i] / s[i..] where i is the find()/rfind() hit on the same &str"""
+    recv = t["args"][0]
+    o = R.origin(body, t["args"][1], carriers={})
+    if not (o[0] == "rv" and o[1].get("k") == "aggr" and o[1].get("adt", "").startswith("std::ops::Range")):
+        return None
+    name = o[1]["adt"].split("::")[-1]
+    if name not in ("RangeTo", "RangeFrom"):
+        return None
+    k, cb = _search_origin(body, o[1]["ops"][0], ("find", "rfind"))
+    if k is None or k != value_key(body, recv):
+        return None
+    if mutated_between(body, k, cb, bb):
+        return None
+    return f"slice bound is the find() hit on the same, unmodified &str ({name})"
